@@ -32,6 +32,8 @@ structure Step (a b : Scope) : Prop where
   dirty : a.dirty = true → b.dirty = true
   /-- the log only grows, and `tooManyPlaceables` is appended exactly when `dirty` flips -/
   errors : ∃ l, b.errors = a.errors ++ l ∧ l.count RErr.tooManyPlaceables = flip a b
+  /-- the arguments of the enclosing term call are back in force after the call -/
+  localArgs : b.localArgs = a.localArgs
 
 /-- the three fields `Step`/`ScopeOk` talk about agree -/
 def Same (a b : Scope) : Prop := a.placeables = b.placeables ∧ a.dirty = b.dirty ∧ a.errors = b.errors
@@ -42,22 +44,23 @@ theorem ScopeOk.congr {a b : Scope} (h : Same a b) : ScopeOk a → ScopeOk b := 
 
 theorem Same.symm {a b : Scope} (h : Same a b) : Same b a := ⟨h.1.symm, h.2.1.symm, h.2.2.symm⟩
 
-theorem Step.congr {a a' b b' : Scope} (h : Step a b) (ha : Same a a') (hb : Same b b') : Step a' b' := by
+theorem Step.congr {a a' b b' : Scope} (h : Step a b) (ha : Same a a') (hb : Same b b')
+    (hl : b'.localArgs = a'.localArgs) : Step a' b' := by
   obtain ⟨l, h1, h2⟩ := h.errors
-  refine ⟨fun x => ScopeOk.congr hb (h.ok (ScopeOk.congr ha.symm x)), ?_, ?_, l, ?_, ?_⟩
+  refine ⟨fun x => ScopeOk.congr hb (h.ok (ScopeOk.congr ha.symm x)), ?_, ?_, ⟨l, ?_, ?_⟩, hl⟩
   · rw [← ha.1, ← hb.1]; exact h.placeables
   · rw [← ha.2.1, ← hb.2.1]; exact h.dirty
   · rw [← ha.2.2, ← hb.2.2]; exact h1
   · unfold flip at *; rw [← ha.2.1, ← hb.2.1]; exact h2
 
 theorem Step.refl (a : Scope) : Step a a :=
-  ⟨id, Nat.le_refl _, id, [], by simp, by cases h : a.dirty <;> simp [flip, h]⟩
+  ⟨id, Nat.le_refl _, id, ⟨[], by simp, by cases h : a.dirty <;> simp [flip, h]⟩, rfl⟩
 
 theorem Step.trans {a b c : Scope} (h1 : Step a b) (h2 : Step b c) : Step a c := by
   obtain ⟨l1, e1, c1⟩ := h1.errors
   obtain ⟨l2, e2, c2⟩ := h2.errors
   refine ⟨fun x => h2.ok (h1.ok x), Nat.le_trans h1.placeables h2.placeables, fun x => h2.dirty (h1.dirty x),
-    l1 ++ l2, by rw [e2, e1, List.append_assoc], ?_⟩
+    ⟨l1 ++ l2, by rw [e2, e1, List.append_assoc], ?_⟩, h2.localArgs.trans h1.localArgs⟩
   rw [List.count_append, c1, c2]
   have d1 := h1.dirty
   have d2 := h2.dirty
@@ -66,7 +69,7 @@ theorem Step.trans {a b c : Scope} (h1 : Step a b) (h2 : Step b c) : Step a c :=
 
 /-- pushing an error other than `tooManyPlaceables` -/
 theorem Step.addError (a : Scope) (e : RErr) (he : e ≠ .tooManyPlaceables) : Step a (a.addError e) := by
-  refine ⟨id, Nat.le_refl _, id, [e], rfl, ?_⟩
+  refine ⟨id, Nat.le_refl _, id, ⟨[e], rfl, ?_⟩, rfl⟩
   have : (a.addError e).dirty = a.dirty := rfl
   unfold flip; rw [this]
   cases h : a.dirty <;> simp [he]
@@ -199,7 +202,7 @@ theorem track_step (p : Pattern Bytes) (e : Inline Bytes) (w : Bytes) (sc : Scop
   · have h := IH.writePattern p w { sc with travelled := sc.travelled ++ [p] }
     rcases hr : writePattern env n p w { sc with travelled := sc.travelled ++ [p] } with ⟨⟨w1, sc1⟩⟩ | ⟨m⟩ | _
     · rw [hr] at h; simp only [good_ok] at h ⊢
-      exact h.congr ⟨rfl, rfl, rfl⟩ ⟨rfl, rfl, rfl⟩
+      exact h.congr ⟨rfl, rfl, rfl⟩ ⟨rfl, rfl, rfl⟩ h.localArgs
     · rw [hr] at h; simp only [good_panic] at h ⊢
       exact fun x => h (ScopeOk.congr ⟨rfl, rfl, rfl⟩ x)
     · trivial
@@ -232,7 +235,7 @@ theorem writeElems_step (whole : Pattern Bytes) (len : Nat) (els : List (PatElem
       split
       · rename_i hgt
         simp only [good_ok]
-        refine ⟨?_, ?_, ?_, [RErr.tooManyPlaceables], rfl, ?_⟩
+        refine ⟨?_, ?_, ?_, ⟨[RErr.tooManyPlaceables], rfl, ?_⟩, rfl⟩
         · intro hok
           rcases hok with h | ⟨_, h⟩
           · have hgt' : sc.placeables + 1 > Generated.maxPlaceables := hgt
@@ -252,8 +255,9 @@ theorem writeElems_step (whole : Pattern Bytes) (len : Nat) (els : List (PatElem
           rw [← hsc2]; split <;> exact ⟨rfl, rfl, rfl⟩
         have hstep : Step sc sc2 := by
           refine Step.congr (?_ : Step sc { sc with placeables := sc.placeables + 1 }) ⟨rfl, rfl, rfl⟩ hsame
+            (by rw [← hsc2]; split <;> rfl)
           refine ⟨fun _ => Or.inl (by show sc.placeables + 1 ≤ _; omega), by show sc.placeables ≤ sc.placeables + 1; omega,
-            id, [], by simp, ?_⟩
+            id, ⟨[], by simp, ?_⟩, rfl⟩
           have : ({ sc with placeables := sc.placeables + 1 } : Scope).dirty = sc.dirty := rfl
           simp [flip, hd]
         have h := IH.writeExpr e (if (env.useIsolating && decide (len > 1) && isolatable e) = true then w ++ fsi else w) sc2
@@ -359,15 +363,18 @@ theorem resolveNamed_step (es : List (Bytes × Inline Bytes)) (sc : Scope) :
     · trivial
 
 omit IH in
-/-- `r` is a `track` or `write_ref_error` result; the caller restores `local_args` -/
-theorem restore_good {sc2 : Scope} {r : RR (Bytes × Scope)} (outer : Option ArgList) (h : Good env sc2 r) :
-    Good env sc2 (match r with
-      | .ok (w1, sc3) => .ok (w1, { sc3 with localArgs := outer })
+/-- `r` is a `track` or `write_ref_error` result in the scope with the call's own arguments installed;
+the caller restores the outer `local_args` -/
+theorem restore_good {sc1 : Scope} (la : Option ArgList) {r : RR (Bytes × Scope)}
+    (h : Good env { sc1 with localArgs := la } r) :
+    Good env sc1 (match r with
+      | .ok (w1, sc3) => .ok (w1, { sc3 with localArgs := sc1.localArgs })
       | .panic m => .panic m
       | .fuel => .fuel) := by
   rcases r with ⟨⟨w1, sc3⟩⟩ | ⟨m⟩ | _
-  · simp only [good_ok] at h ⊢; exact h.congr ⟨rfl, rfl, rfl⟩ ⟨rfl, rfl, rfl⟩
-  · exact h
+  · simp only [good_ok] at h ⊢; exact h.congr ⟨rfl, rfl, rfl⟩ ⟨rfl, rfl, rfl⟩ rfl
+  · simp only [good_panic] at h ⊢
+    exact fun x => h (ScopeOk.congr ⟨rfl, rfl, rfl⟩ x)
   · trivial
 
 theorem writeInline_step (e : Inline Bytes) (w : Bytes) (sc : Scope) :
@@ -389,9 +396,7 @@ theorem writeInline_step (e : Inline Bytes) (w : Bytes) (sc : Scope) :
     · rw [hr] at h; simp only [good_ok] at h
       refine Good.trans h ?_
       simp only []
-      refine Good.trans (b := { sc1 with localArgs := some named })
-        ((Step.refl sc1).congr ⟨rfl, rfl, rfl⟩ ⟨rfl, rfl, rfl⟩) ?_
-      apply restore_good
+      apply restore_good (some named)
       split
       · exact IH.track _ _ _ _
       · rw [writeRefError_good _ _ _ _ rfl]; simp only [good_ok]; exact Step.addError _ _ (by simp)
